@@ -31,9 +31,44 @@ func drawC17a(t *rapid.T) *c17aScenario {
 	k.MaxNodes = 2
 	k.EasyPods = true
 	k.FriendlyPools = true
+	// profile: several weighted NodePools, no inter-pod constraints, preferences, limits or minValues, and pods whose
+	// required node affinity has OR-ed zone terms: the only thing that can keep a pod off reserved capacity it is
+	// compatible with is that the capacity is used up, and then strict mode defers it
+	crossPool := dpct(t, 35, "c17aCrossPoolProfile")
+	if crossPool {
+		k.InterPod, k.NoPrefs, k.NoLimits, k.NoMinValues, k.MinPools, k.NoSoftTaints = 0, true, true, true, 2, true
+		k.MaxNodes = 1
+	}
 	w := gen.World(t, k)
 	w.Options.ReservedCapacity = rapid.IntRange(0, 9).Draw(t, "gate") > 0
-	return &c17aScenario{World: w, Fallback: rapid.IntRange(0, 3).Draw(t, "fallback") == 0}
+	if crossPool {
+		w.Options.ReservedCapacity = true
+		for _, p := range w.Bound {
+			p.Spec.Affinity, p.Spec.TopologySpreadConstraints = nil, nil
+		}
+		for i, np := range w.Pools {
+			wt := int32(10 * (len(w.Pools) - i))
+			np.Spec.Weight = &wt
+			np.Spec.Limits = nil
+		}
+		// often the heaviest pool is closed to the workload (dedicated taint): it reports an ordinary error first
+		if dpct(t, 50, "c17aHeavyPoolTainted") {
+			w.Pools[0].Spec.Template.Spec.Taints = []corev1.Taint{{Key: "dedicated", Value: "other-team", Effect: corev1.TaintEffectNoSchedule}}
+		}
+		for i, p := range w.Pending {
+			p.Spec.TopologySpreadConstraints = nil
+			p.Spec.Affinity = nil
+			if dpct(t, 60, fmt.Sprintf("c17aOrTerms%d", i)) {
+				z := rapid.IntRange(0, 2).Draw(t, fmt.Sprintf("c17aOrZone%d", i))
+				term := func(v string) corev1.NodeSelectorTerm {
+					return corev1.NodeSelectorTerm{MatchExpressions: []corev1.NodeSelectorRequirement{{Key: corev1.LabelTopologyZone, Operator: corev1.NodeSelectorOpIn, Values: []string{v}}}}
+				}
+				p.Spec.Affinity = &corev1.Affinity{NodeAffinity: &corev1.NodeAffinity{RequiredDuringSchedulingIgnoredDuringExecution: &corev1.NodeSelector{
+					NodeSelectorTerms: []corev1.NodeSelectorTerm{term(gen.Zones[z]), term(gen.Zones[(z+1)%3])}}}}
+			}
+		}
+	}
+	return &c17aScenario{World: w, Fallback: !crossPool && rapid.IntRange(0, 3).Draw(t, "fallback") == 0}
 }
 
 func execC17a(s *c17aScenario, c *ev.Ctx) {
@@ -118,6 +153,15 @@ func execC17a(s *c17aScenario, c *ev.Ctx) {
 				}
 				for _, p := range b.originals(nc.Pods) {
 					poolOnlyReserved = poolOnlyReserved || p.Spec.NodeSelector[v1.CapacityTypeLabelKey] == v1.CapacityTypeReserved
+					// ... or a required node-affinity term of the pod narrows the capacity type (e.g. NotIn [on-demand] in
+					// a pool offering on-demand and reserved)
+					if a := p.Spec.Affinity; a != nil && a.NodeAffinity != nil && a.NodeAffinity.RequiredDuringSchedulingIgnoredDuringExecution != nil {
+						for _, term := range a.NodeAffinity.RequiredDuringSchedulingIgnoredDuringExecution.NodeSelectorTerms {
+							for _, e := range term.MatchExpressions {
+								poolOnlyReserved = poolOnlyReserved || e.Key == v1.CapacityTypeLabelKey
+							}
+						}
+					}
 				}
 				if !poolOnlyReserved {
 					c.Violate("reservation:reserved-only-without-pin", "%s is restricted to reserved capacity but pins no reservation id", name)
@@ -130,6 +174,57 @@ func execC17a(s *c17aScenario, c *ev.Ctx) {
 				}
 				sort.Strings(ids)
 				c.Violate("reservation:strict-fallback", "strict mode: %s with pods %s holds no reservation although compatible reserved offerings %v are available to its instance types (the pod had to be deferred)", name, shortPods(nc.Pods), ids)
+			}
+		}
+	}
+	// ---- strict mode across NodePools: the pod a NodeClaim was opened for was offered to every NodePool of a higher
+	// weight first. If one of those could host it on reserved capacity (on its own, whatever the launch choice), the pod
+	// belongs on a pinned NodeClaim there or is deferred; an unpinned NodeClaim of a lighter pool is a silent fallback.
+	// Judged only where nothing else can explain the fallback: no inter-pod constraints anywhere, no preferences on the
+	// pod, the heavier pool is ready, has no limits and no minValues.
+	if !s.Fallback && s.World.Options.ReservedCapacity && !worldHasInterPodConstraints(s.World) {
+		anyReserved := false
+		for _, it := range b.S.Catalog {
+			for _, of := range it.Offerings {
+				anyReserved = anyReserved || (of.CapacityType == v1.CapacityTypeReserved && of.Available && of.ReservationCapacity > 0)
+			}
+		}
+		rb := *b
+		rb.choiceOK = func(ch launchChoice) bool {
+			return ch.of.CapacityType == v1.CapacityTypeReserved && ch.of.Available && ch.of.ReservationCapacity > 0
+		}
+		for i, nc := range res.NewNodeClaims {
+			if _, pinned := nc.Requirements[cloudprovider.ReservationIDLabel]; pinned || len(nc.Pods) == 0 || !anyReserved {
+				continue
+			}
+			opener := b.originals(nc.Pods[:1])[0]
+			if podHasPreferences(opener) || b.Pools[nc.NodePoolName] == nil {
+				continue
+			}
+			// the pod as Karpenter first tries it: of several OR-ed required node-affinity terms only the first
+			opener = opener.DeepCopy()
+			if a := opener.Spec.Affinity; a != nil && a.NodeAffinity != nil && a.NodeAffinity.RequiredDuringSchedulingIgnoredDuringExecution != nil {
+				if terms := a.NodeAffinity.RequiredDuringSchedulingIgnoredDuringExecution.NodeSelectorTerms; len(terms) > 1 {
+					a.NodeAffinity.RequiredDuringSchedulingIgnoredDuringExecution.NodeSelectorTerms = terms[:1]
+					c.Class("cross_pool_reserved_opener_with_or_terms")
+				}
+			}
+			for _, name := range sortedKeys(b.Pools) {
+				hp := b.Pools[name]
+				if (name != nc.NodePoolName && weightOf(hp) <= weightOf(b.Pools[nc.NodePoolName])) || len(hp.Spec.Limits) > 0 || hp.Spec.Replicas != nil {
+					continue
+				}
+				hasMinValues := false
+				for _, r := range hp.Spec.Template.Spec.Requirements {
+					hasMinValues = hasMinValues || r.MinValues != nil
+				}
+				if hasMinValues {
+					continue
+				}
+				c.Class("cross_pool_reserved_judged")
+				if ok, _ := rb.poolFeasible(hp, opener); ok {
+					c.Violate("reservation:strict-fallback:lighter-pool", "strict mode: claim#%d(%s) was opened for pod %s without a reservation although NodePool %s (weight %d >= %d) can host the pod, as first tried, on reserved capacity (the pod had to get a reservation there or be deferred)", i, nc.NodePoolName, opener.Name, hp.Name, weightOf(hp), weightOf(b.Pools[nc.NodePoolName]))
+				}
 			}
 		}
 	}
@@ -172,11 +267,32 @@ func execC17a(s *c17aScenario, c *ev.Ctx) {
 
 var propC17a = ev.Prop[c17aScenario]{
 	ID: "C17", Test: "TestC17a",
-	Rule: "rapid draws a scheduler world whose catalog has reserved offerings (ids r-1..r-3 shared across types, capacity 0-3, some unavailable), up to 12 mostly small pods, gate on/off, strict (Provisioner.Schedule) or fallback (disruption.SimulateScheduling) mode; " +
-		"oracle on Results: per reservation id #NodeClaims pinning it <= min capacity reported for the id; a pin implies capacity-type exactly {reserved}, non-empty ids that are available reserved offerings of the remaining types compatible with the requirements; strict: a claim without a pin has no compatible available reserved offering among its types; deferred pods are not placed; " +
+	Rule: "rapid draws a scheduler world whose catalog has reserved offerings (ids r-1..r-3 shared across types, capacity 0-3, some unavailable), up to 12 mostly small pods, gate on/off, strict (Provisioner.Schedule) or fallback (disruption.SimulateScheduling) mode; a 35% profile has >=2 weighted NodePools (the heaviest often closed by a dedicated taint), no inter-pod constraints / preferences / limits / minValues and pods with two OR-ed zone terms; " +
+		"oracle on Results: per reservation id #NodeClaims pinning it <= min capacity reported for the id; a pin implies capacity-type exactly {reserved}, non-empty ids that are available reserved offerings of the remaining types compatible with the requirements; strict: a claim without a pin has no compatible available reserved offering among its types, and the pod it was opened for - as first tried: only the first of OR-ed terms - cannot be hosted on reserved capacity (daemon overhead included, every launch choice) by its own or any heavier NodePool that is ready and has no limits / minValues (judged in worlds without inter-pod constraints, for pods without preferences); deferred pods are not placed; " +
 		"non-trivial = a claim pinned a reservation and (a pod was deferred, a reservation was filled to capacity, or >=2 claims pinned)",
 	Assumptions: []string{"reservation capacity is the minimum over the offerings carrying the id, as the code documents"},
 	Draw:        drawC17a, Exec: execC17a, ReplayTries: 5,
 }
 
 func TestC17a(t *testing.T) { ev.Run(t, propC17a) }
+
+// worldHasInterPodConstraints: some pending or bound pod carries pod (anti-)affinity or a topology spread constraint.
+func worldHasInterPodConstraints(w *gen.SchedWorld) bool {
+	var all []*corev1.Pod
+	all = append(all, w.Pending...)
+	all = append(all, w.Bound...)
+	for _, p := range all {
+		if len(p.Spec.TopologySpreadConstraints) > 0 {
+			return true
+		}
+		if a := p.Spec.Affinity; a != nil && (a.PodAffinity != nil || a.PodAntiAffinity != nil) {
+			return true
+		}
+	}
+	return false
+}
+
+// podHasPreferences: preferred node affinity (Karpenter treats it as required until relaxed).
+func podHasPreferences(p *corev1.Pod) bool {
+	return p.Spec.Affinity != nil && p.Spec.Affinity.NodeAffinity != nil && len(p.Spec.Affinity.NodeAffinity.PreferredDuringSchedulingIgnoredDuringExecution) > 0
+}
